@@ -110,7 +110,7 @@ def _i32(M):
 
 
 FAMILIES = ['poisson1d', 'poisson2d', 'poisson3d', 'aniso', 'graph_shift', 'graph_dirichlet', 'graph_identity',
-            'elasticity2d', 'elasticity2d_nu', 'gram']
+            'elasticity2d', 'elasticity2d_nu', 'gram', 'blockcpl']
 
 
 def _rand_graph_laplacian(rng, n):
@@ -191,6 +191,21 @@ def make_matrix(rng, fam, cap):
         spacing = (1.0, float(rng.choice([1.0, 0.25, 3.0])))
         A, B = linear_elasticity((nx, ny), spacing=spacing, E=1.0, nu=nu, format='bsr')
         params = {'grid': [nx, ny], 'nu': nu, 'spacing': list(spacing)}
+    elif fam == 'blockcpl':
+        # block problem with strong coupling INSIDE the diagonal blocks, kept in BSR storage (block size 2 or 3):
+        # kron(graph Laplacian + shift, SPD block) + block-diagonal SPD part; candidates = one constant per component
+        bs = int(rng.choice([2, 3]))
+        nb = int(rng.integers(3, max(4, min(24, cap // bs) + 1)))
+        L = _rand_graph_laplacian(rng, nb) + np.diag(rng.choice([0.01, 0.1, 1.0], size=nb))
+        G = rng.standard_normal((bs, bs))
+        Bk = G @ G.T + 0.2 * np.eye(bs)
+        D = np.kron(L, Bk)
+        for k in range(nb):
+            G = rng.standard_normal((bs, bs))
+            D[k * bs:(k + 1) * bs, k * bs:(k + 1) * bs] += float(rng.choice([0.1, 1.0, 3.0])) * (G @ G.T)
+        A = sp.bsr_array(sp.csr_array(D), blocksize=(bs, bs))
+        B = np.kron(np.ones((nb, 1)), np.eye(bs))
+        params = {'nb': nb, 'blocksize': bs}
     elif fam == 'gram':
         n = int(rng.integers(3, min(cap, 80) + 1))
         G = (rng.random((n, n)) < min(1.0, 2.5 / n)) * rng.choice([-2.0, -1.0, 1.0, 2.0, 0.5], size=(n, n))
@@ -748,7 +763,18 @@ def part_search(ctx, N, cap, fams=None, focus=None):
 def run_spec(ctx, spec, En, rng, cycles=None, report_ctor_error=True):
     M, kw, ctor = spec['M'], spec['kw'], spec['ctor']
     try:
-        ml = build(spec)
+        try:
+            ml = build(spec)
+        except ValueError:
+            # lloyd aggregation raises ('indices and data should have the same size') when the strength graph leaves nodes
+            # out of reach of every centre -- the aggregation routine's business (C12), not this property's: use 'standard'
+            agg = kw.get('aggregate')
+            if not (isinstance(agg, (list, tuple)) and agg[0] == 'lloyd'):
+                raise
+            ctx.feat('lloyd_raised->standard')
+            spec = dict(spec, kw=dict(kw, aggregate='standard'))
+            kw = spec['kw']
+            ml = build(spec)
     except Exception as ex:    # noqa: BLE001
         facts = probe(spec)
         if facts.get('nonfinite'):
@@ -988,7 +1014,7 @@ EDGE_SMOOTHERS = [
 def part_edge(ctx, N, only=None):
     rng = ctx.np_rng
     sms = [sm for sm in EDGE_SMOOTHERS if only is None or sm[0] in only]
-    fams = ['elasticity2d', 'gram', 'aniso', 'elasticity2d_nu', 'graph_shift', 'poisson2d', 'graph_dirichlet']
+    fams = ['elasticity2d', 'gram', 'aniso', 'blockcpl', 'elasticity2d_nu', 'graph_shift', 'poisson2d', 'graph_dirichlet', 'blockcpl']
     for t in range(N):
         if ctx.time_left() < 8 or _enough(ctx):
             break
@@ -1032,10 +1058,87 @@ def part_edge(ctx, N, only=None):
 
 
 # ------------------------------------------------------------------------------------------------
+# part R: the public relaxation drivers themselves, real and complex Hermitian, CSR and BSR storage (block size 1..3)
+# ------------------------------------------------------------------------------------------------
+
+def part_relax(ctx, N):
+    """dense error propagator of one call of a relaxation driver on an HPD matrix; energy norm <= 1 + 1e-8"""
+    from pyamg.relaxation import relaxation as RX
+    rng = ctx.np_rng
+    for t in range(N):
+        if ctx.time_left() < 8 or _enough(ctx):
+            break
+        M = make_matrix(rng, ['blockcpl', 'blockcpl', 'elasticity2d_nu', 'gram', 'graph_shift'][t % 5], 30)
+        if t % 3 != 2:
+            M = rotate(rng, M)
+        A = M['A']
+        n, dt = A.shape[0], A.dtype
+        En = Energy(A.toarray())
+        if not En.hpd:
+            continue
+        bs = A.blocksize[0] if A.format == 'bsr' else int(rng.choice([1, 2, 3]))
+        if n % bs:
+            bs = 1
+        fmt = 'bsr' if (A.format == 'bsr' or (bs > 1 and t % 2)) else 'csr'
+        Ast = _i32(sp.bsr_array(sp.csr_array(A), blocksize=(bs, bs))) if fmt == 'bsr' else _i32(sp.csr_array(A))
+        sweep = str(rng.choice(['forward', 'backward', 'symmetric']))
+        its = int(rng.choice([1, 1, 2]))
+        meth = ['gauss_seidel', 'sor', 'block_gauss_seidel', 'gauss_seidel', 'schwarz'][(t // 5) % 5]
+        om = float(rng.choice([0.3, 1.0, 1.5, 1.9]))
+        if meth == 'gauss_seidel':
+            call = lambda x, b: RX.gauss_seidel(Ast, x, b, iterations=its, sweep=sweep)                      # noqa: E731
+        elif meth == 'sor':
+            call = lambda x, b: RX.sor(Ast, x, b, om, iterations=its, sweep=sweep)                           # noqa: E731
+        elif meth == 'block_gauss_seidel':
+            call = lambda x, b: RX.block_gauss_seidel(Ast, x, b, iterations=its, sweep=sweep, blocksize=bs)  # noqa: E731
+        else:
+            Ac = _i32(sp.csr_array(A))
+            Ac.sort_indices()
+            call = lambda x, b: RX.schwarz(Ac, x, b, iterations=its, sweep=sweep)                            # noqa: E731
+        case = {'matrix': mat_to_case(dict(M, A=Ast)), 'method': meth, 'sweep': sweep, 'iterations': its, 'omega': om,
+                'blocksize': bs, 'mode': 'relax'}
+        ctx.case(key=_key('relax', Ast.data.tobytes(), fmt, bs, meth, sweep, its, om), nontrivial=n >= 2,
+                 sample={'method': meth, 'format': fmt, 'blocksize': bs, 'complex': En.cplx, 'n': n, 'sweep': sweep} if t % 13 == 0 else None)
+        ctx.feat(f'relax:{meth}:{fmt}{bs}:' + ('complex' if En.cplx else 'real'))
+        xs = (rng.random(n) - 0.5).astype(dt)
+        if En.cplx:
+            xs = xs + 1j * (rng.random(n) - 0.5)
+        b = A @ xs
+        units = [(j, 1.0) for j in range(n)] + ([(j, 1j) for j in range(n)] if En.cplx else [])
+        E = np.zeros((len(units), len(units)))
+        try:
+            for c, (j, u) in enumerate(units):
+                x = xs.copy()
+                x[j] -= u
+                call(x, b.copy())
+                E[:, c] = En.real(xs - x)
+        except Exception as ex:    # noqa: BLE001
+            ctx.violation(f'relaxation.{meth} ({fmt}, blocksize {bs}, {M["fam"]}, n={n}) raised {type(ex).__name__}: {ex}', case)
+            continue
+        nrm, top = energy_norm(En, E)
+        ctx.rel_err(max(0.0, nrm - 1.0) if np.isfinite(nrm) else 0.0)
+        if not nrm <= 1 + TOL:
+            e = (top[:n] + 1j * top[n:] if En.cplx else top).astype(dt) if top is not None else None
+            detail = {'operator_norm': nrm}
+            if e is not None:
+                e = e / max(abs(e).max(), 1e-300)
+                x = xs - e
+                call(x, b.copy())
+                detail.update({'e': e, 'energy_before': En.en(e), 'energy_after': En.en(xs - x)})
+                case = dict(case, e=e, xs=xs)
+            ctx.violation(f'relaxation.{meth}(sweep={sweep}, iterations={its}' + (f', omega={om}' if meth == 'sor' else '') +
+                          f') on a {"complex Hermitian" if En.cplx else "real symmetric"} positive definite {fmt.upper()} matrix '
+                          f'(blocksize {bs}, {M["fam"]}, n={n}) increases the energy norm of some error: ||A^1/2 E A^-1/2||_2 = {nrm:.12g}'
+                          + (f'; stored error e: energy {detail["energy_before"]:.6g} -> {detail["energy_after"]:.6g}' if e is not None else ''),
+                          case, detail=detail)
+
+
+# ------------------------------------------------------------------------------------------------
 
 def run(ctx):
     import pyamg  # noqa: F401
     part_model(ctx, ctx.scale(24, 240))
+    part_relax(ctx, ctx.scale(50, 1000))
     part_edge(ctx, ctx.scale(63, 900))
     part_search(ctx, ctx.scale(50, 1300), 150 if not ctx.quick else 110)
 
@@ -1056,6 +1159,26 @@ def replay(ctx, data):
     case = data.get('case') or (data.get('correspondence_failures') or [{}])[0].get('case')
     if not case or 'matrix' not in case:
         print('this replay file carries no hierarchy (see its theorem_or_obligation / correspondence_failures fields)')
+        return
+    if case.get('mode') == 'relax':
+        from pyamg.relaxation import relaxation as RX
+        A = mat_from_case(case['matrix'])['A']
+        En = Energy(A.toarray())
+        e = np.array(_num(case['e']), dtype=A.dtype)
+        xs = np.array(_num(case['xs']), dtype=A.dtype)
+        x = xs - e
+        kw = {'iterations': case['iterations'], 'sweep': case['sweep']}
+        if case['method'] == 'sor':
+            RX.sor(A, x, A @ xs, case['omega'], **kw)
+        elif case['method'] == 'block_gauss_seidel':
+            RX.block_gauss_seidel(A, x, A @ xs, blocksize=case['blocksize'], **kw)
+        elif case['method'] == 'schwarz':
+            RX.schwarz(sp.csr_array(A), x, A @ xs, **kw)
+        else:
+            RX.gauss_seidel(A, x, A @ xs, **kw)
+        print(f'relaxation.{case["method"]} {A.format} blocksize {case["blocksize"]}: energy of the stored error {En.en(e):.12g} -> {En.en(xs - x):.12g}')
+        if En.en(xs - x) > En.en(e) * (1 + 2 * TOL):
+            ctx.violation(f'relaxation.{case["method"]} increases the energy of the stored error: {En.en(e):.12g} -> {En.en(xs - x):.12g}', case)
         return
     M = mat_from_case(case['matrix'])
     spec = {'M': M, 'ctor': case['ctor'], 'kw': case['kw'], 'npseed': case['npseed'], 'decoy': case.get('decoy', False)}
